@@ -211,6 +211,12 @@ def enc_data3D(e, s):
         _enc_rle(e, t["frames"], 3)
 
 
+def _count(n, what):
+    if n < 0:
+        raise RefError(f"negative {what} count {n}")
+    return n
+
+
 def dec_data3D(d, fmt, segs=None):
     if fmt not in (1, 2):
         raise RefError("format")
@@ -223,6 +229,7 @@ def dec_data3D(d, fmt, segs=None):
     if fmt == 1:
         nl = d.i32()
         d.skip(4)
+        _count(nl, "link")
         s["links"] = [d.u32(2) for _ in range(nl)]
     else:
         s["links"] = None
@@ -248,6 +255,7 @@ def dec_emg(d, fmt, segs=None):
         raise RefError("format")
     s = {"t": "emg", "format": 1}
     n, s["frequency"] = d.i32(2)
+    _count(n, "signal")
     s["startTime"] = d.f32()
     s["nSamples"] = d.i32() + EMG_BIAS
     ch = d.i16(n)
@@ -276,6 +284,7 @@ def dec_force3D(d, fmt, segs=None):
         raise RefError("format")
     s = {"t": "force3D", "format": 1}
     n, s["frequency"] = d.i32(2)
+    _count(n, "track")
     s["startTime"] = d.f32()
     s["nFrames"] = d.i32()
     s["volume"], s["rot"], s["trans"] = d.f32(3), d.f32(9), d.f32(3)
@@ -301,6 +310,7 @@ def dec_platData(d, fmt, segs=None):
         raise RefError("format")
     s = {"t": "platData", "format": 1}
     n, s["frequency"] = d.i32(2)
+    _count(n, "platform")
     s["startTime"] = d.f32()
     s["nFrames"] = d.i32()
     ch = d.u16(n)
@@ -322,7 +332,7 @@ def enc_platCal(e, s):
 def dec_platCal(d, fmt, segs=None):
     if fmt != 2:
         raise RefError("format")
-    n = d.i32()
+    n = _count(d.i32(), "platform")
     d.skip(4)
     ch = d.i16(n)
     plats = []
@@ -398,6 +408,7 @@ def dec_calib(d, fmt, segs=None):
         raise RefError("format")
     s = {"t": "calib", "format": fmt}
     n, s["model"] = d.i32(2)
+    _count(n, "camera")
     s["volume"], s["rot"], s["trans"] = d.f32(3), d.f32(9), d.f32(3)
     s["map"] = d.i16(n)
     cams = []
@@ -426,7 +437,7 @@ def enc_optical(e, s):
 
 
 def dec_optical(d, fmt, segs=None):
-    n = d.i32()
+    n = _count(d.i32(), "channel")
     d.skip(4)
     chans = []
     for _ in range(n):
@@ -446,7 +457,7 @@ def enc_events(e, s):
 
 
 def dec_events(d, fmt, segs=None):
-    n = d.i32()
+    n = _count(d.i32(), "event")
     st_ = d.f32()
     evs = []
     for _ in range(n):
